@@ -926,10 +926,11 @@ PROPS = {
     },
     "C18": {
         "property_modules": ["Zlink.Properties.C18"], "lean_modules": ["Zlink.Properties.C18"],
-        "theorems": ["C18.C18_select_min", "C18.C18_scan_is_select", "C18.C18_server_rotation", "C18.C18_no_double_service", "C18.C18_phase_bound", "C18.C18_bounded_bypass"],
+        "theorems": ["C18.C18_select_min", "C18.C18_scan_is_select", "C18.C18_server_rotation", "C18.C18_no_double_service", "C18.C18_phase_bound", "C18.C18_bounded_bypass",
+                     "C18.C18_run_is_winners", "C18.C18_server_no_double_service", "C18.C18_server_phase_bound", "C18.C18_positions_are_connections"],
         "run": run_srv_scenarios(["srv-fair"]), "trusted_base": TB_COMMON,
         "assumptions": SRV_ASSUME + [
-            "the no-double-service and bounded-bypass theorems are stated over sequences of consecutive scans of an unchanged set of n futures (Sel.winners); that the server's get_next_call is such a scan, and that the next start is winner+1, is proved for one iteration (C18_scan_is_select) and checked over whole runs by the correspondence of the global service order; the composition over full server runs is not a single theorem",
+            "the no-double-service and phase-bound theorems are proved both over abstract sequences of consecutive scans (Sel.winners) and over whole stretches of the server loop (C18_server_no_double_service / C18_server_phase_bound via C18_run_is_winners: the successive lastCall values of consecutive iterations over a connection list of unchanged length are the winners sequence; C18_positions_are_connections: then the same clients sit at the same positions); the second sentence (across closures and stream transitions) is the sum over phases (C18_bounded_bypass), its phases being such stretches",
         ],
     },
     "C11": {
@@ -1014,7 +1015,7 @@ PROPS = {
     },
     "C19": {
         "property_modules": ["Zlink.Properties.C19"], "lean_modules": ["Zlink.Properties.C19"],
-        "theorems": ["C19.writeAll_flatten", "C19.C19_e2e", "C19.C19_ids_distinct", "C19.C19_cancel_counterexample", "C19.C19_cancel_partial"],
+        "theorems": ["C19.writeAll_flatten", "C19.C19_e2e", "C19.C19_ids_distinct", "C19.C19_cancel_counterexample", "C19.C19_cancel_partial", "C19.C19_no_suspension_after_last_byte", "C19.C19_cancel_cut_is_proper"],
         "run": run_unix, "package": "zvrt", "trusted_base": TB_COMMON,
         "assumptions": [
             "PARTIAL: the kernel's Unix socket is modelled as a byte FIFO accepting any non-empty prefix of a write; kernel buffer sizes, descriptor inheritance and the tokio / smol schedulers are runtime facts exercised by the correspondence run on real sockets only",
@@ -1064,7 +1065,7 @@ PROPS = {
     "C05": {
         "property_modules": ["Zlink.Properties.C05"], "lean_modules": ["Zlink.Properties.C05"],
         "theorems": ["C05.C05_flag_names", "C05.C05_flags_only_when_set", "C05.C05_flags_hidden", "C05.C05_call_roundtrip", "C05.C05_error_encoding",
-                     "C05.C05_error_roundtrip", "C05.C05_error_member_order", "C05.C05_reply_encoding", "C05.C05_no_parameters_spellings"],
+                     "C05.C05_error_roundtrip", "C05.C05_error_member_order", "C05.C05_reply_encoding", "C05.C05_no_parameters_spellings", "C05.C05_wellformed_call_accepted"],
         "run": run_envelope, "trusted_base": TB_COMMON,
         "assumptions": [
             "serde / serde_derive semantics modelled for the shape family (see C04); field values are strings without escapes, integers, booleans, options, arbitrary JSON",
